@@ -5,6 +5,7 @@ package main
 // Ref is an independent reference body (written from the Scheme definitions) for the reference search oracle.
 
 import (
+	"fmt"
 	"github.com/awalterschulze/gominikanren/example/peano"
 	"github.com/awalterschulze/gominikanren/micro"
 	"github.com/awalterschulze/gominikanren/mini"
@@ -101,4 +102,58 @@ func init() {
 					[]*G{gFresh(gFresh(gFresh(gConjPlus(true, succG(ptB(1), ptB(3)), succG(ptB(0), ptB(4)), succG(ptB(2), ptB(0)), gLib("Half", "", ptB(2), ptB(1))))))})
 			}},
 	}
+}
+
+// directedPeano: the arithmetic relations at naturals and answer counts no generated case reaches, and their answers kept while
+// other queries run.
+func directedPeano(rep *Report) {
+	nat := func(t *ast.SExpr) (int, bool) { return natOf(t, 0) }
+	for _, z := range []int{40, 300} {
+		for _, n := range []int{-1, z + 1, 1000, z} {
+			ans := micro.Run(n, func(q *ast.SExpr) micro.Goal {
+				return micro.CallFresh(func(x *ast.SExpr) micro.Goal {
+					return micro.CallFresh(func(y *ast.SExpr) micro.Goal {
+						return micro.Conj(peano.Natplus(x, y, peano.Makenat(z)), micro.EqualO(q, ast.NewList(x, y)))
+					})
+				})
+			})
+			want := z + 1
+			if n >= 0 && n < want {
+				want = n
+			}
+			seen := map[int]bool{}
+			bad := ""
+			for _, a := range ans {
+				if a == nil || a.Pair == nil || a.Pair.Cdr == nil || a.Pair.Cdr.Pair == nil {
+					bad = "an answer that is not a pair of numerals: " + showTerm(a)
+					break
+				}
+				x, okx := nat(a.Pair.Car)
+				y, oky := nat(a.Pair.Cdr.Pair.Car)
+				if !okx || !oky || isVar(a.Pair.Car) || isVar(a.Pair.Cdr.Pair.Car) || x+y != z {
+					bad = fmt.Sprintf("the answer %s is not a pair of naturals with sum %d", showTerm(a), z)
+					break
+				}
+				seen[x] = true
+			}
+			if bad == "" && (len(ans) != want || len(seen) != want) {
+				bad = fmt.Sprintf("%d answers (%d distinct), want %d", len(ans), len(seen), want)
+			}
+			if bad != "" {
+				rep.violate(-1, "peano-large", fmt.Sprintf("Run(%d, x + y = %d)", n, z), bad)
+			}
+		}
+	}
+	// answers kept across queries
+	kept := micro.RunGoal(-1, micro.CallFresh(func(x *ast.SExpr) micro.Goal {
+		return micro.CallFresh(func(y *ast.SExpr) micro.Goal { return peano.Natplus(x, y, peano.Makenat(3)) })
+	}))
+	snap := fmt.Sprint(micro.MKReify(kept))
+	_ = micro.RunGoal(-1, peano.Leq(micro.Var(0), peano.Makenat(2)))
+	_ = micro.Run(5, func(q *ast.SExpr) micro.Goal { return peano.Half(q, peano.Makenat(2)) })
+	if now := fmt.Sprint(micro.MKReify(kept)); now != snap || len(kept) != 4 {
+		rep.violate(-1, "result-changed-by-later-call", "kept := RunGoal(-1, x + y = 3); then RunGoal(-1, q <= 2) and Run(5, half(q, 2)); MKReify(kept) again",
+			fmt.Sprintf("the %d kept answers reified as %s before and as %s after the later queries", len(kept), snap, now))
+	}
+	rep.hist("directed: peano sums of 40 and 300, answers kept across queries")
 }
